@@ -135,6 +135,14 @@ Theorem C19_compare_icase_shipped_refuted :
 Proof. exact compare_icase_shipped_refuted. Qed.
 Print Assumptions C19_compare_icase_shipped_refuted.
 
+(** equal_icase = equality, less_icase = strict "less" of the same comparison (all on the lower-cased strings) *)
+Theorem C19_equal_less_icase : forall a b,
+  (equal_icase a b = true <-> to_lower a = to_lower b) /\
+  less_icase a b = (strcmp_sign (to_lower a) (to_lower b) =? -1)%Z /\
+  less_icase a b = (compare_icase a b =? -1)%Z.
+Proof. exact final_equal_less_icase. Qed.
+Print Assumptions C19_equal_less_icase.
+
 (** ** starts_with / ends_with / contains *)
 Theorem C19_starts_ends_contains : forall s m,
   (starts_with s m = true <-> exists t, s = m ++ t) /\
